@@ -104,6 +104,15 @@ pub fn links(thorough: bool) -> Vec<(String, LinkMetadata)> {
     for s in &strs {
         out.push((format!("name:{s:?}"), mk(s, Default::default(), Default::default(), None, ByProducts::new().set_stdout(s.clone()), vec![s.clone()])));
     }
+    // every string-bearing field x wide and critical strings
+    let crit = crate::props::c11::crit_strings(2);
+    for f in crate::props::c11::LINK_FIELDS {
+        for s in strs.iter().chain(crit.iter()) {
+            if let MetadataWrapper::Link(l) = crate::props::c11::link_with(f, s) {
+                out.push((format!("field:{f}={s:?}"), l));
+            }
+        }
+    }
     out
 }
 
@@ -142,6 +151,16 @@ pub fn layouts(thorough: bool) -> Vec<(String, in_toto::models::LayoutMetadata)>
     for t in ["0001-01-01T00:00:00Z", "1969-12-31T23:59:59Z", "1970-01-01T00:00:00Z", "2000-02-29T12:00:00Z", "2038-01-19T03:14:08Z", "2262-04-11T23:47:17Z", "9999-12-31T23:59:59Z"] {
         let e = chrono::DateTime::parse_from_rfc3339(t).unwrap().with_timezone(&chrono::Utc);
         out.push((format!("expires:{t}"), world::layout(vec![], vec![], &[], e)));
+    }
+    // every string-bearing field x wide and critical strings
+    let strs = util::strings_upto(&c05::SIGMA_STR, if thorough { 2 } else { 1 });
+    let crit = crate::props::c11::crit_strings(2);
+    for f in crate::props::c11::LAYOUT_FIELDS {
+        for s in strs.iter().chain(crit.iter()) {
+            if let MetadataWrapper::Layout(l) = crate::props::c11::layout_with(f, s) {
+                out.push((format!("field:{f}={s:?}"), l));
+            }
+        }
     }
     // several steps and inspections
     out.push(("multi".into(), world::layout(vec![Step::new("a"), Step::new("b"), Step::new("a")], vec![Inspection::new("a"), Inspection::new("")], &[kk[0]], world::far_future())));
